@@ -57,8 +57,8 @@ Trees == Pairs \cup Triples \cup Frames \cup Arrays
 NX == Max({NP, NT, NF})
 Hows == {"ij", "oj", "lj", "rj"}
 IsArrays(tr) == TsLeaves(tr) = <<>> /\ ArrLeaves(tr) # <<>>
-Pols(tr) == IF IsArrays(tr) THEN {[how |-> h, t |-> <<>>] : h \in Hows} \cup {[how |-> "ex", t |-> <<>>, n |-> n] : n \in 0..(NA + 1)}
-            ELSE {[how |-> h, t |-> <<>>] : h \in Hows} \cup {[how |-> "ex", t |-> Asc(I)] : I \in {{}, {1, NX}, {2, NX + 1}}}
+Pols(tr) == IF IsArrays(tr) THEN {[how |-> h, t |-> <<>>] : h \in Hows} \cup {[how |-> "ex", t |-> <<>>, n |-> n] : n \in (IF Light THEN {0, NA + 1} ELSE 0..(NA + 1))}
+            ELSE {[how |-> h, t |-> <<>>] : h \in Hows} \cup {[how |-> "ex", t |-> Asc(I)] : I \in (IF Light THEN {{2, NX + 1}} ELSE {{}, {1, NX}, {2, NX + 1}})}
 Methods == {"none", "ffill", "bfill"}
 ColPols(tr) == IF MultiLeaves(tr) # <<>> THEN {"ij", "oj", "none"} ELSE {"ij"}
 
